@@ -152,6 +152,7 @@ func (c *Ctx) Oracle(ok bool, sig string, what string, replay interface{}) {
 	out, _ := json.Marshal(rec)
 	c.orc.Write(out)
 	c.orc.WriteByte('\n')
+	c.orc.Flush() // failures must survive a kill of the harness (watchdog of the driver)
 }
 
 func (c *Ctx) Count(key string) { c.kinds[key]++ }
